@@ -45,6 +45,8 @@ func verifBridgeState() *verifBridgeEnv {
 	be.bridgeDenom = types.NewBridgeDenom(verifModule, verifTokenA)
 	bank.SetDenomMetaData(e.ctx, banktypes.Metadata{Base: verifBase, Display: verifBase, Name: "Tether", Symbol: "USDT",
 		DenomUnits: []*banktypes.DenomUnit{{Denom: verifBase, Exponent: 0, Aliases: []string{be.bridgeDenom}}}})
+	// as erc20 RegisterNativeCoin does: alias index + bank metadata + token pair
+	ek.SetAliasesDenom(e.ctx, verifBase, be.bridgeDenom)
 	ek.AddTokenPair(e.ctx, erc20types.TokenPair{Erc20Address: verifErc20Token.Hex(), Denom: verifBase, Enabled: true, ContractOwner: erc20types.OWNER_MODULE})
 	evm.Contracts = append(evm.Contracts, verifErc20Token)
 	p := erc20types.DefaultParams()
@@ -304,4 +306,73 @@ func VerifC05IncreaseFee() {
 		}
 	}
 	rt.Assert(n == 1, "the pool holds the transfer exactly once (no stale entry under the old fee)")
+}
+
+// VerifC05OutgoingBridgeCall: an outgoing bridge call carrying one bridged token, from creation
+// to settlement by an observed result (success or failure) or by the timeout sweep. The call
+// gets the announced nonce (counter + 1), carries exactly the sender, refund address, target,
+// token, amount, call data and memo its creator supplied, and costs the creator exactly the
+// amount; it is settled exactly once: an executed call is gone and never refunded, a failed or
+// timed-out call refunds exactly the amount to the refund address (as base coins for a call made
+// by message, as ERC-20 for a call made through the precompile) and is gone; a second sweep or
+// refund attempt finds nothing.
+func VerifC05OutgoingBridgeCall() {
+	e := verifBridgeState()
+	e.k.SetLastObservedBlockHeight(e.ctx, 1000, 90)
+	module := models.ModuleAddress(verifModule)
+	u1 := verifAmt("user1.balance", 100)
+	amount := verifAmt("amount", 64)
+	rt.Assume(rt.And(amount.IsPositive(), u1.GTE(amount)))
+	e.bank.SetBalance(verifUser1, verifBase, u1)
+	e.bank.SetBalance(module, e.bridgeDenom, u1) // escrow == base supply
+	sender := common.BytesToAddress(verifUser1)
+	to := common.HexToAddress(verifTargetContract)
+	next := rt.U64("bridgeCallCounter")
+	rt.Assume(rt.And(next >= 1, next < 1<<40))
+	e.store().Set(types.KeyLastBridgeCallID, sdk.Uint64ToBigEndian(next))
+	data, memo := []byte{0xaa, 0xbb}, []byte{0x01}
+	rt.Cover("state-built")
+	nonce, err := e.k.AddOutgoingBridgeCall(e.ctx, sender, sender, sdk.NewCoins(sdk.NewCoin(verifBase, amount)), to, data, memo, 0)
+	if err != nil {
+		rt.Assert(false, "a bridge call a holder can pay for is not refused")
+		return
+	}
+	fromMsg := rt.Bool("madeByMessage")
+	if fromMsg {
+		e.k.SetBridgeCallFromMsg(e.ctx, nonce)
+	}
+	rt.Assert(nonce == next && sdk.BigEndianToUint64(e.store().Get(types.KeyLastBridgeCallID)) == next+1, "the call gets the announced nonce and the counter moves by one")
+	call, found := e.k.GetOutgoingBridgeCallByNonce(e.ctx, nonce)
+	rt.Assert(found, "the call is on record")
+	if found {
+		rt.Assert(rt.And(call.Sender == sender.Hex(), call.Refund == sender.Hex(), call.To == to.Hex(), call.Data == "aabb", call.Memo == "01",
+			len(call.Tokens) == 1 && call.Tokens[0].Contract == verifTokenA && call.Tokens[0].Amount.Equal(amount)), "the record carries exactly what the creator supplied")
+	}
+	rt.Assert(e.bank.Balance(verifUser1, verifBase).Equal(u1.Sub(amount)), "the creator pays exactly the amount")
+	tokBefore := sdkmath.NewIntFromBigInt(e.tok.BalanceOf(verifErc20Token, sender))
+	how := rt.Choose("settledBy", 3) // observed success, observed failure, timeout sweep
+	switch how {
+	case 0:
+		e.k.BridgeCallResultHandler(e.ctx, &types.MsgBridgeCallResultClaim{ChainName: verifModule, Nonce: nonce, TxOrigin: verifAddrB, Success: true})
+	case 1:
+		e.k.BridgeCallResultHandler(e.ctx, &types.MsgBridgeCallResultClaim{ChainName: verifModule, Nonce: nonce, TxOrigin: verifAddrB, Success: false, Cause: "aa"})
+	default:
+		e.k.SetLastObservedBlockHeight(e.ctx, call.Timeout, 95)
+		e.k.cleanupTimeOutBridgeCall(e.ctx)
+	}
+	rt.Cover("settled")
+	rt.Assert(!e.k.HasOutgoingBridgeCall(e.ctx, nonce) && !e.k.HasBridgeCallFromMsg(e.ctx, nonce), "a settled call is gone")
+	coins := e.bank.Balance(verifUser1, verifBase)
+	toks := sdkmath.NewIntFromBigInt(e.tok.BalanceOf(verifErc20Token, sender))
+	if how == 0 {
+		rt.Assert(rt.And(coins.Equal(u1.Sub(amount)), toks.Equal(tokBefore)), "an executed call is never refunded")
+	} else if fromMsg {
+		rt.Assert(rt.And(coins.Equal(u1), toks.Equal(tokBefore)), "a failed or timed-out call made by message refunds exactly the amount as coins")
+	} else {
+		rt.Assert(rt.And(coins.Equal(u1.Sub(amount)), toks.Equal(tokBefore.Add(amount))), "a failed or timed-out call made through the precompile refunds exactly the amount as ERC-20")
+	}
+	// settled exactly once: another sweep finds nothing
+	snap := e.ms.Snapshot()
+	e.k.cleanupTimeOutBridgeCall(e.ctx)
+	rt.Assert(e.ms.Equal(snap), "a settled call is not refunded again")
 }
